@@ -104,9 +104,9 @@ package ollamarunner
 // at least one cache entry is free afterwards, a full context loses half of its non-kept
 // window, the cache was asked to remove exactly [numKeep, numKeep+d) of this slot's sequence,
 // and the cache still holds one entry per recorded input.
-// Failure (*ErrReprocessInputs): the recorded inputs are cleared AND the cache holds nothing
+// Failure (an error although numKeep < numCtx, i.e. *ErrReprocessInputs): the recorded inputs are cleared AND the cache holds nothing
 // for the sequence; the inputs handed back for reprocessing are Inputs[:numKeep] ++ Inputs[numKeep+d:].
-// Any other error: nothing changed.
+// The other error (numKeep >= numCtx): nothing changed.
 // Loop 1 is the in-place shift.
 
 //@ func (*InputCache).ShiftCacheSlot
@@ -120,12 +120,13 @@ package ollamarunner
 //@   ensures result == nil ==> forall k int :: 0 <= k && k < numKeep && k < len(slot.Inputs) ==> slot.Inputs[k] == old(slot.Inputs[k])
 //@   ensures result == nil ==> forall k int, d int :: numKeep <= k && k < len(slot.Inputs) && d == old(len(slot.Inputs)) - len(slot.Inputs) ==> slot.Inputs[k] == old(slot.Inputs[k + d])
 //@   ensures result == nil && c.cache != nil ==> kvlen(c.cache.ghost_ver, slot.Id) == len(slot.Inputs)
-//@   ensures tagis(result, "*ErrReprocessInputs") ==> len(slot.Inputs) == 0
-//@   ensures tagis(result, "*ErrReprocessInputs") && c.cache != nil ==> kvlen(c.cache.ghost_ver, slot.Id) == 0
-//@   ensures result != nil && !tagis(result, "*ErrReprocessInputs") ==> slot.Inputs == old(slot.Inputs) && c.cache.ghost_ver == old(c.cache.ghost_ver)
+//@   ensures result != nil && numKeep < c.numCtx ==> len(slot.Inputs) == 0
+//@   ensures result != nil && numKeep < c.numCtx && c.cache != nil ==> kvlen(c.cache.ghost_ver, slot.Id) == 0
+//@   ensures result != nil && numKeep >= c.numCtx ==> slot.Inputs == old(slot.Inputs) && c.cache.ghost_ver == old(c.cache.ghost_ver)
 //@
 //@   assert-at call Remove #1 : arg1 == slot.Id && arg2 == numKeep && arg3 == numKeep + discard && 0 < discard && arg3 <= inputLen
-//@   assert-at call Remove #2 : arg1 == slot.Id && arg2 == 0 && arg3 == 2147483647      -- "remove the whole sequence"
+//@   assert-at call Remove #2 : arg1 == slot.Id && arg2 == 0
+//@   assert-at call Remove #2 : arg3 == 2147483647      -- "remove the whole sequence": math.MaxInt32 is the end index that means "to the end"
 //@   assert-at return #3 : len(newInputs) == inputLen - discard
 //@   assert-at return #3 : forall k int :: 0 <= k && k < numKeep ==> newInputs[k] == old(slot.Inputs[k])
 //@   assert-at return #3 : forall k int :: numKeep <= k && k < inputLen - discard ==> newInputs[k] == old(slot.Inputs[k + discard])
